@@ -502,7 +502,7 @@ __dump_metadata_keys() {
 	# be invoked after ebuild code has done it's thing, as such we no longer care,
 	# and directly screw w/ it for speed reasons- about 5% speedup in metadata regen.
 	set -f
-	local key phases phase
+	local key phases phase words
 	for key in "${PKGCORE_METADATA_KEYS[@]}"; do
 		if [[ ${key} == DEFINED_PHASES ]]; then
 			for phase in "${PKGCORE_EBUILD_PHASES[@]}"; do
@@ -517,8 +517,10 @@ __dump_metadata_keys() {
 				# write to the FD. This is done since it's about 25% faster for our usage;
 				# if we used the functions, we'd have to subshell the 'echo ${!key}', which
 				# because of bash behaviour, means the content would be read byte by byte.
-				echo -n "key ${key}=" >&${PKGCORE_EBD_WRITE_FD}
-				echo ${!key} >&${PKGCORE_EBD_WRITE_FD}
+				# Split into words ourselves rather than via `echo ${!key}`: a value whose
+				# first word is -n, -e or -E (IUSE="-n foo") would be eaten as an echo option.
+				words=( ${!key} )
+				echo "key ${key}=${words[*]}" >&${PKGCORE_EBD_WRITE_FD}
 			fi
 		fi
 	done
